@@ -297,6 +297,11 @@ pub fn generate(rng: &mut Rng, shape: &Shape) -> Program {
                 if rng.chance(1, 5) {
                     body.push_str(&format!("  {kw} {base} *self_;\n"));
                 }
+                if rng.chance(1, 6) {
+                    // named nested record (C: visible at file scope; C++: a member type): an item of its own, a child of the
+                    // enclosing record but generated from the module
+                    body.push_str(&format!("  struct {base}_In {{ int na; char nb; }} named_in_;\n"));
+                }
                 if rng.chance(1, 6) && kind == DKind::Struct {
                     // anonymous inner struct member
                     body.push_str("  struct { int ia; char ib; } anon_;\n");
